@@ -181,6 +181,12 @@ func c10RunWithCrash(r *verifkit.Run, id string, w *world, g *gen, tape []func()
 		if detail == nil {
 			detail = map[string]any{}
 		}
+		if oom, why := w.outOfModel(0); oom {
+			// one third or more of the power equivocated in this history: unjudged
+			counters["unjudged-one-third-or-more-equivocated"]++
+			cs.logf("UNJUDGED %s (%s)", key, why)
+			return
+		}
 		detail["crash_at_write"] = k
 		detail["second_crash_after"] = second
 		detail["reference_trace"] = refTrace
